@@ -11,6 +11,10 @@ of the generated loop body, whatever its syntactic shape.
 import EvalexprVerif.Generated.FnTree
 import EvalexprVerif.Translate.Lemmas
 import EvalexprVerif.Proofs.AgreeFnOperator
+import EvalexprVerif.Proofs.AgreeFnContext
+import EvalexprVerif.Model.Interface
+
+set_option linter.unusedSimpArgs false
 
 namespace Evalexpr.AgreeFn
 open Evalexpr
@@ -77,5 +81,91 @@ theorem fn_Node_eval_with_context_mut_agree (n : Node) (s : St) :
     rcases r with ⟨_ | _, _⟩ <;> simp
 termination_by sizeOf n
 decreasing_by exact Rs.node_lt (by assumption)
+
+/-! ### the typed and the context-free tree-level entry points (`Model/Interface.lean`: `runTree`)
+
+A Rust entry point of kind `k` returns the payload (`String`, `i64`, `f64`, `bool`, `TupleType`, `()`);
+the Model represents a typed result by the `Value` of that variant: the agreement is stated through
+that embedding (`Except.map Value.string` …; `eval_number*` embeds with `Value.float`). The context-free
+forms build `&mut HashMapContext::new()` in place: result only, the caller's state is untouched
+(`Mode.fresh`). -/
+
+
+/-- unfold the wrapper, execute it, then split on the evaluator's answer and on the value variant -/
+macro "typed_tree" ev:term : tactic => `(tactic| (
+  simp only [Gen.Node.eval_string_with_context, Gen.Node.eval_int_with_context, Gen.Node.eval_float_with_context, Gen.Node.eval_number_with_context, Gen.Node.eval_boolean_with_context, Gen.Node.eval_tuple_with_context, Gen.Node.eval_empty_with_context, Gen.Node.eval_string_with_context_mut, Gen.Node.eval_int_with_context_mut, Gen.Node.eval_float_with_context_mut, Gen.Node.eval_number_with_context_mut, Gen.Node.eval_boolean_with_context_mut, Gen.Node.eval_tuple_with_context_mut, Gen.Node.eval_empty_with_context_mut, Gen.Node.eval_string, Gen.Node.eval_int, Gen.Node.eval_float, Gen.Node.eval_number, Gen.Node.eval_boolean, Gen.Node.eval_tuple, Gen.Node.eval_empty, Gen.Node.eval,
+    Rs.call_fresh, Rs.M.run_call_bind, Rs.M.run_pure, Rs.M.run_call, Rs.M.run_try_ok, Rs.M.run_try_error, Rs.M.run_ret, Rs.M.run_pure_bind,
+    fn_Node_eval_with_context_agree, fn_Node_eval_with_context_mut_agree, runTree, runTreeUntyped,
+    fn_HashMapContext_new_agree, St.fresh]
+  generalize $ev _ _ = r
+  rcases r with ⟨_ | v, s'⟩
+  · first | rfl | simp [Kind.project, Except.map]
+  · cases v <;> first | rfl | simp [Kind.project, Except.map]))
+
+theorem fn_Node_eval_agree (n : Node) (s : St) : (Gen.Node.eval n, s) = runTreeUntyped .fresh n s := by
+  simp only [Gen.Node.eval, Rs.call_fresh, fn_Node_eval_with_context_mut_agree, runTreeUntyped, fn_HashMapContext_new_agree, St.fresh]
+
+theorem fn_Node_eval_string_with_context_agree (n : Node) (s : St) :
+    Prod.map (Except.map Value.string) id (Gen.Node.eval_string_with_context n s) = runTree .string .ro n s := by typed_tree Node.evalRO
+
+theorem fn_Node_eval_int_with_context_agree (n : Node) (s : St) :
+    Prod.map (Except.map Value.int) id (Gen.Node.eval_int_with_context n s) = runTree .int .ro n s := by typed_tree Node.evalRO
+
+theorem fn_Node_eval_float_with_context_agree (n : Node) (s : St) :
+    Prod.map (Except.map Value.float) id (Gen.Node.eval_float_with_context n s) = runTree .float .ro n s := by typed_tree Node.evalRO
+
+theorem fn_Node_eval_number_with_context_agree (n : Node) (s : St) :
+    Prod.map (Except.map Value.float) id (Gen.Node.eval_number_with_context n s) = runTree .number .ro n s := by typed_tree Node.evalRO
+
+theorem fn_Node_eval_boolean_with_context_agree (n : Node) (s : St) :
+    Prod.map (Except.map Value.boolean) id (Gen.Node.eval_boolean_with_context n s) = runTree .boolean .ro n s := by typed_tree Node.evalRO
+
+theorem fn_Node_eval_tuple_with_context_agree (n : Node) (s : St) :
+    Prod.map (Except.map Value.tuple) id (Gen.Node.eval_tuple_with_context n s) = runTree .tuple .ro n s := by typed_tree Node.evalRO
+
+theorem fn_Node_eval_empty_with_context_agree (n : Node) (s : St) :
+    Prod.map (Except.map (fun _ => Value.empty)) id (Gen.Node.eval_empty_with_context n s) = runTree .empty .ro n s := by typed_tree Node.evalRO
+
+theorem fn_Node_eval_string_with_context_mut_agree (n : Node) (s : St) :
+    Prod.map (Except.map Value.string) id (Gen.Node.eval_string_with_context_mut n s) = runTree .string .mut_ n s := by typed_tree Node.evalMut
+
+theorem fn_Node_eval_int_with_context_mut_agree (n : Node) (s : St) :
+    Prod.map (Except.map Value.int) id (Gen.Node.eval_int_with_context_mut n s) = runTree .int .mut_ n s := by typed_tree Node.evalMut
+
+theorem fn_Node_eval_float_with_context_mut_agree (n : Node) (s : St) :
+    Prod.map (Except.map Value.float) id (Gen.Node.eval_float_with_context_mut n s) = runTree .float .mut_ n s := by typed_tree Node.evalMut
+
+theorem fn_Node_eval_number_with_context_mut_agree (n : Node) (s : St) :
+    Prod.map (Except.map Value.float) id (Gen.Node.eval_number_with_context_mut n s) = runTree .number .mut_ n s := by typed_tree Node.evalMut
+
+theorem fn_Node_eval_boolean_with_context_mut_agree (n : Node) (s : St) :
+    Prod.map (Except.map Value.boolean) id (Gen.Node.eval_boolean_with_context_mut n s) = runTree .boolean .mut_ n s := by typed_tree Node.evalMut
+
+theorem fn_Node_eval_tuple_with_context_mut_agree (n : Node) (s : St) :
+    Prod.map (Except.map Value.tuple) id (Gen.Node.eval_tuple_with_context_mut n s) = runTree .tuple .mut_ n s := by typed_tree Node.evalMut
+
+theorem fn_Node_eval_empty_with_context_mut_agree (n : Node) (s : St) :
+    Prod.map (Except.map (fun _ => Value.empty)) id (Gen.Node.eval_empty_with_context_mut n s) = runTree .empty .mut_ n s := by typed_tree Node.evalMut
+
+theorem fn_Node_eval_string_agree (n : Node) (s : St) :
+    ((Gen.Node.eval_string n).map Value.string, s) = runTree .string .fresh n s := by typed_tree Node.evalMut
+
+theorem fn_Node_eval_int_agree (n : Node) (s : St) :
+    ((Gen.Node.eval_int n).map Value.int, s) = runTree .int .fresh n s := by typed_tree Node.evalMut
+
+theorem fn_Node_eval_float_agree (n : Node) (s : St) :
+    ((Gen.Node.eval_float n).map Value.float, s) = runTree .float .fresh n s := by typed_tree Node.evalMut
+
+theorem fn_Node_eval_number_agree (n : Node) (s : St) :
+    ((Gen.Node.eval_number n).map Value.float, s) = runTree .number .fresh n s := by typed_tree Node.evalMut
+
+theorem fn_Node_eval_boolean_agree (n : Node) (s : St) :
+    ((Gen.Node.eval_boolean n).map Value.boolean, s) = runTree .boolean .fresh n s := by typed_tree Node.evalMut
+
+theorem fn_Node_eval_tuple_agree (n : Node) (s : St) :
+    ((Gen.Node.eval_tuple n).map Value.tuple, s) = runTree .tuple .fresh n s := by typed_tree Node.evalMut
+
+theorem fn_Node_eval_empty_agree (n : Node) (s : St) :
+    ((Gen.Node.eval_empty n).map (fun _ => Value.empty), s) = runTree .empty .fresh n s := by typed_tree Node.evalMut
 
 end Evalexpr.AgreeFn
